@@ -299,6 +299,36 @@ def harmonics_obligations(R, L):
     R.notes.append(f'spin-0 phase relative to Condon-Shortley: {sorted(phases)} (parity of m, sign)')
 
 
+def psi4lm_native_replay(o=None):
+    """the real AurelCore.Psi4_lm on an axisymmetric trilinear field (trilinear interpolation is exact for it): every m != 0
+    mode must vanish and a_20 must approach its analytic value; grid sizes taken from the refuted configurations"""
+    import re
+    import warnings
+    import aurel
+    sizes = sorted({int(m) for m in re.findall(r'grid \((\d+),', getattr(o, 'detail', '') or '')})[:4] or [9, 16, 30, 31]
+    lines, bad = [], False
+    c0, c1, L = 1.3 - 0.4j, 0.25 + 0.7j, 8.0
+    with warnings.catch_warnings():
+        warnings.simplefilter('ignore')
+        for N in sizes:
+            if N > 120:
+                continue
+            par = {'Nx': N, 'Ny': N + 1, 'Nz': N + 2, 'xmin': -L / 2, 'ymin': -L / 2, 'zmin': -L / 2, 'dx': L / (N - 1), 'dy': L / N, 'dz': L / (N + 1)}
+            fd = aurel.FiniteDifference(par, verbose=False)
+            rel = aurel.AurelCore(fd, verbose=False, lmax=4, extract_radii=[3.0])
+            field = c0 + c1 * fd.z
+            rel.data['Weyl_Psi4r'], rel.data['Weyl_Psi4i'] = np.real(field), np.imag(field)
+            alm = rel['Psi4_lm'][3.0]
+            a20 = c0 * np.sqrt(15 / (32 * np.pi)) * 8 * np.pi / 3
+            leak = max(abs(v) for (el, m), v in alm.items() if m != 0)
+            rel20 = abs(alm[2, 0] - a20) / abs(a20)
+            bound = 2.0 * (np.pi / (N + 1)) ** 2 / 12 + 1e-12
+            lines.append(f'real Psi4_lm, grid {N}x{N + 1}x{N + 2}, Psi4 = c0 + c1 z: max |a_lm, m != 0| = {leak:.3e}, relative error of a_20 = {rel20:.3e} (mid-point bound {bound:.1e})')
+            if leak > 1e-10 or rel20 > bound:
+                bad = True
+    return bad, '\n'.join(lines)
+
+
 def psi4lm_obligations(R):
     import aurel.core as C
     import aurel.maths as M
@@ -308,7 +338,11 @@ def psi4lm_obligations(R):
     t0 = time.time()
     bad = []
     ncfg = 0
-    for (Nx, Ny, Nz), lmax in itertools.product([(4, 5, 6), (9, 9, 9), (12, 7, 30), (3, 3, 3)], (2, 8, 11)):
+    cfgs = list(itertools.product([(4, 5, 6), (9, 9, 9), (12, 7, 30), (3, 3, 3)], (2, 8, 11)))
+    # every angular resolution N_theta = 3..300 (the number of sample points is computed from it: a size-dependent rounding in
+    # that computation shows at isolated values only), through the grid size and through lmax
+    cfgs += [((n, n + 1, n + 2), 2) for n in range(3, 301)] + [((5, 4, 6), n - 1) for n in (30, 98, 171, 172, 200, 256)]
+    for (Nx, Ny, Nz), lmax in cfgs:
         ncfg += 1
         calls = []
 
@@ -387,6 +421,8 @@ def psi4lm_obligations(R):
             if not wired:
                 bad.append(f'{ctx}: Re/Im of Weyl_Psi[4] are not interpolated onto the sphere of radius {r} and recombined as re + i im')
             # phi quadrature exact for |k| <= N_phi
+            if Nt > 40 and Nt % 16:
+                continue
             Np = 2 * Nt
             ks = np.arange(-Np, Np + 1)
             sums = np.array([np.sum(np.exp(1j * k * ph[0])) * c['dphi'] for k in ks])
@@ -395,7 +431,7 @@ def psi4lm_obligations(R):
                 bad.append(f'{ctx}: phi quadrature not exact for |m-m\'| <= N_phi')
     R.bounded.append(dict(function='AurelCore.Psi4_lm', bound=f'{ncfg} (grid size, lmax) configurations; field values opaque'))
     R.ob('core.Psi4_lm:sphere grid, weights, Re/Im recombination, s=-2, one entry per radius', 'Psi4_lm', 'refuted' if bad else 'bounded-ok',
-         'stub-trace', time.time() - t0, '; '.join(bad[:4]), bad[:6] or None, bounded=f'{ncfg} configurations')
+         'stub-trace', time.time() - t0, '; '.join(bad[:4]), bad[:6] or None, bounded=f'{ncfg} configurations', replay=psi4lm_native_replay)
 
 
 def interpolate_obligations(R):
